@@ -27,7 +27,7 @@ for item in sys.argv[3:]:
     wt = "/tmp/seedrun/w%s" % worker
     shutil.rmtree(wt, ignore_errors=True)
     subprocess.check_call(["rsync", "-a", "--exclude", "target", "--exclude", ".git", "/repo/", wt + "/"])
-    prop_id = ("C" + P[1:]) if P[0] in "ST" else P
+    prop_id = "C" + P[1:]
     rec = dict(seed=item, property=prop_id)
     t0 = time.time()
     rc, out = sh("patch -p1 < %s/patch.diff" % sd, wt)
